@@ -252,6 +252,18 @@ class Run:
                 elif not blocked and s.closes == 0 and not s.inbuf and not s.eof:
                     self.fails.append(("keepalive-not-expired", "connection %d still idle in _keep at t=%d, deadline %r"
                                        % (s.cid, w.now, c.timeout)))
+            # the same seen from the connections: an open, accepted connection that has been answered, has nothing to read,
+            # whose client is still there and which no handler holds is an idle keep-alive connection - if the keep-alive
+            # queue does not know it, nothing will ever close it (and, registered or not, its next request finds it gone
+            # from the books)
+            known_to_timer = set(c.sock.cid for c in w.worker._keep)
+            for s in w.socks:
+                if (s.accepted and s.closes == 0 and not s.inbuf and not s.eof and s.responses() >= 1
+                        and w.job_state(s.cid) not in ("queued", "running", "returned")
+                        and s.cid not in known_to_timer and not self.is_capacity_stall()):
+                    self.fails.append(("keepalive-unknown-connection", "connection %d was answered and kept open, the keep-alive time "
+                                       "has passed (t=%d), it is still open and the keep-alive queue does not hold it: _keep=%r registered=%r"
+                                       % (s.cid, w.now, sorted(known_to_timer), w.registered_cids())))
         self.classify_unserved("after the keep-alive time")
         if self.fails:
             return
@@ -384,6 +396,16 @@ def fixed_schedules():
     out.append(((1, 3, 2, 0, 1), [("connect",), m([("acc", 0)]), m(), m(), m(), m(), ("send", 0, ["KA"]),
                                   m([("rd", 0)]), m(), ("start", 0), ("handle", 0), ("orphan",), m(), m(), m(),
                                   ("finish", 0), ("finlock", 0)]))
+    # two handlers pass the keep-alive admission test together (threads = 2, one slot): the queue overshoots by one, both
+    # connections are kept, both expire
+    two = [("connect",), ("connect",), m([("acc", 0)]), m(), m(), m(), m(), m([("acc", 0)]), m(), m(), m(), m(),
+           ("send", 0, ["KA"]), ("send", 1, ["KA"]), m([("rd", 0), ("rd", 1)]), m(), m(), m(),
+           ("start", 0), ("start", 1), ("handle", 0), ("handle", 1), ("finish", 0), ("finlock", 0), ("finish", 1), ("finlock", 1),
+           m(), m(), m(), m()]
+    out.append(((2, 3, 2, 0, 1), list(two)))
+    # ... and the one that was queued first sends its next request before the time is up
+    out.append(((2, 3, 2, 0, 1), two + [("tick",), ("send", 0, ["KA"]), m([("rd", 0)]), m(), m(), m(), ("start", 0), ("handle", 0),
+                                        ("finish", 0), ("finlock", 0), m(), m(), m()]))
     # two listeners: both report a connection in the same select
     out.append(((1, 1, 2, 0, 2), [("connect",), ("connect",), m([("acc", 0), ("acc", 1)]), m(), m(), m(), m(), m(), m()]))
     return out
